@@ -60,6 +60,9 @@ inductive Op
   | angle (n : Int) (d : Nat)
   | stopClr (i : Nat) (op : Color.Op)
   | stopPos (i : Nat) (n : Int) (d : Nat)
+  /-- `line.color` / `font.color` followed by an assignment: "accessing this property causes the fill type to be set to
+      SOLID" (documented), then it is `fill.fore_color` -/
+  | viaColor (op : Color.Op)
 deriving Repr
 
 inductive Res | ok | typeError | valueError | indexError
@@ -116,6 +119,10 @@ def step (a1 : Option Nat) (f : F) : Op → F × Res
           | some s => if posOk n d then (.grad (setNth stops i { s with pos := pct n d }) lin path, .ok) else (f, .valueError)
           | none => (f, .indexError)
       | _ => (f, .typeError)
+  | .viaColor op =>
+      let c0 : Color.St := match f with | .solid c => c | _ => none
+      let (c', r) := colour c0 op
+      (.solid c', r)
 
 def run (a1 : Option Nat) (f : F) : List Op → F
   | [] => f
